@@ -81,6 +81,12 @@ class Collector:
             # prefix match so a floor on "E-AXIS" covers "E-AXIS.*"
             n = sum(c for r, c in self.rule_counts.items()
                     if r == rule or r.startswith(rule + "."))
+            # a rule that said "this shape is not one I recognise"
+            # (UNDECIDED, printed) has not silently matched nothing
+            if any(o.status == UNDECIDED and (o.rule == rule or
+                                              o.rule.startswith(rule + "."))
+                   for o in self.obs):
+                continue
             if n < minimum:
                 bad.append("%s: %d obligations < floor %d" % (rule, n, minimum))
         return bad
